@@ -73,6 +73,7 @@ pub fn registry() -> Vec<ScenarioDef> {
         ScenarioDef { property: "C10", name: "c10/fastpath", run: c10::run, quick_cases: 3_000, thorough_cases: 400_000, needs_tls: true },
         ScenarioDef { property: "C11", name: "c11/input", run: c11::run, quick_cases: 3_000, thorough_cases: 400_000, needs_tls: true },
         ScenarioDef { property: "C12", name: "c12/automaton", run: c12::run, quick_cases: 2_500, thorough_cases: 300_000, needs_tls: true },
+        ScenarioDef { property: "C12", name: "c12/confirm_active_limit", run: c12::run_limit, quick_cases: 200, thorough_cases: 10_000, needs_tls: true },
         ScenarioDef { property: "C15", name: "c15/authenticate", run: nlmp::run_c15, quick_cases: 100_000, thorough_cases: 15_000_000, needs_tls: false },
         ScenarioDef { property: "C16", name: "c16/sealing", run: nlmp::run_c16, quick_cases: 60_000, thorough_cases: 10_000_000, needs_tls: false },
         ScenarioDef { property: "C17", name: "c17/secrets", run: nlmp::run_c17, quick_cases: 4_000, thorough_cases: 500_000, needs_tls: true },
